@@ -1,6 +1,7 @@
 package litefs
 
 import (
+	"bytes"
 	"context"
 	"errors"
 	"time"
@@ -278,5 +279,64 @@ func VerifC08Loop() {
 	}
 	if cl.streams > 0 {
 		rt.Reach("c08.replica")
+	}
+}
+
+type verifHandoffLeaser struct {
+	verifScriptLeaser
+	existing      *verifScriptLease
+	existingCalls []string
+}
+
+func (l *verifHandoffLeaser) AcquireExisting(ctx context.Context, leaseID string) (Lease, error) {
+	l.existingCalls = append(l.existingCalls, leaseID)
+	if leaseID != l.existing.id {
+		return nil, errors.New("unknown lease")
+	}
+	return l.existing, nil
+}
+
+// VerifC08HandoffReceive: a replica is handed the lease over its stream,
+// becomes primary with it, and is later asked to hand it on to a connected
+// replica. A lease id received through a handoff is good for one acquisition:
+// after handing the lease on, the node must not take it back.
+func VerifC08HandoffReceive() {
+	rt.TimeoutsMayFire = false
+	rt.SelectNondet(true)
+	w := verifNewStore(false)
+	s := w.store
+	s.candidate = true
+	s.ReconnectDelay = time.Second
+	s.clusterID.Store(verifClusterA)
+	lease := &verifScriptLease{id: "lease-77", ttl: 10 * time.Second, handoffCh: make(chan uint64, 1), renewedAt: time.Now(), maxRenews: 2}
+	leaser := &verifHandoffLeaser{verifScriptLeaser: verifScriptLeaser{clusterID: verifClusterA, primaryInfo: 0, acquireResult: 1}, existing: lease}
+	s.Leaser = leaser
+	var buf bytes.Buffer
+	must(WriteStreamFrame(&buf, &ReadyStreamFrame{}))
+	must(WriteStreamFrame(&buf, &HandoffStreamFrame{LeaseID: "lease-77"}))
+	cl := &verifReplayClient{stream: &verifByteStream{r: bytes.NewReader(buf.Bytes()), clusterID: verifClusterA}}
+	s.Client = cl
+	handOn := rt.Choose("hand.on", 2) == 1
+	if handOn {
+		w.sub.handoffCh = make(chan string, 1) // replica 7 is connected and ready to take the lease
+		lease.handoffCh <- 7
+	}
+	ctx := rt.NewEnvCtx(3)
+	err := s.monitorLease(ctx)
+	rt.Check(err == nil, "monitorLease ends cleanly")
+	rt.Check(len(leaser.existingCalls) >= 1 && leaser.existingCalls[0] == "lease-77", "the handed-off lease id is used to become primary")
+	rt.Check(len(leaser.existingCalls) == 1, "a lease id received through a handoff is used for exactly one acquisition (never again after the lease was handed on, released or lost)")
+	rt.Check(s.lease == nil, "not primary after the monitor exits")
+	handedOn := false
+	select {
+	case id := <-w.sub.HandoffCh():
+		handedOn = id == "lease-77"
+	default:
+	}
+	if handedOn {
+		rt.Check(lease.closes == 0, "a lease handed on is not destroyed by the node that handed it on")
+		rt.Reach("c08.handoff.received.and.handed.on")
+	} else {
+		rt.Reach("c08.handoff.received")
 	}
 }
